@@ -215,4 +215,69 @@ mod verif_replay_expr_dm {
         assert_eq!(checked, (14 + 14 * 14 + 14 * 14 * 14) * 5);
         assert!(distinguishing > 1000, "only {} expressions evaluated without error", distinguishing);
     }
+
+    /// C11 (bounded-exhaustive): every sequence of up to four tokens out of 20 of the expression language, and of five
+    /// tokens out of the first 10, well formed or not, is either evaluated or rejected with an error; none panics (a
+    /// panic would poison the session's data store) and none blocks.  268,420 texts.
+    #[test]
+    fn verif_replay_malformed_expressions_never_panic() {
+        use crate::expression_engine::parser::ExpressionParser;
+        use std::sync::{Arc, Mutex};
+        const TOKENS: [&str; 20] = [
+            "1", "a", "[", "]", "(", ")", ",", ";", ".", "!", "-", "==", "'s'", "{", "}", ":", "*", "=", "?=", "<",
+        ];
+        let current = Arc::new(Mutex::new(String::new()));
+        let panicked: Arc<Mutex<Vec<String>>> = Arc::new(Mutex::new(Vec::new()));
+        let (tx, rx) = std::sync::mpsc::channel();
+        let (cur2, pan2) = (current.clone(), panicked.clone());
+        std::thread::spawn(move || {
+            let fresh = || {
+                let gd = create_global_data_arc();
+                RFsmExpressionDatamodel::add_internal_functions_to_wrapper(&mut gd.lock().unwrap().actions);
+                gd.lock().unwrap().data.map.insert("a".to_string(), create_data_arc(Data::Integer(7)));
+                gd
+            };
+            let mut gd = fresh();
+            let mut count = 0usize;
+            for (n, alphabet) in [(1usize, 20usize), (2, 20), (3, 20), (4, 20), (5, 10)] {
+                let mut idx = vec![0usize; n];
+                loop {
+                    let text = idx.iter().map(|i| TOKENS[*i]).collect::<Vec<&str>>().join(" ");
+                    *cur2.lock().unwrap() = text.clone();
+                    let (t2, g2) = (text.clone(), gd.clone());
+                    let r = std::panic::catch_unwind(std::panic::AssertUnwindSafe(move || {
+                        let mut g = g2.lock().unwrap();
+                        let _ = ExpressionParser::execute(t2, &mut g);
+                    }));
+                    if r.is_err() {
+                        let mut p = pan2.lock().unwrap();
+                        if p.len() < 5 {
+                            p.push(text);
+                        }
+                        gd = fresh();
+                    }
+                    count += 1;
+                    let mut k = 0;
+                    while k < n {
+                        idx[k] += 1;
+                        if idx[k] < alphabet {
+                            break;
+                        }
+                        idx[k] = 0;
+                        k += 1;
+                    }
+                    if k == n {
+                        break;
+                    }
+                }
+            }
+            let _ = tx.send(count);
+        });
+        match rx.recv_timeout(std::time::Duration::from_secs(300)) {
+            Ok(count) => assert_eq!(count, 20 + 400 + 8000 + 160000 + 100000),
+            Err(_) => panic!("evaluation of `{}` did not terminate", current.lock().unwrap()),
+        }
+        let p = panicked.lock().unwrap();
+        assert!(p.is_empty(), "evaluating these texts panicked instead of returning an error: {:?}", *p);
+    }
 }
